@@ -18,7 +18,7 @@ stdin {"jobs": [...]}, one JSON line per job on stdout.  Job kinds:
  The float bridge (trusted, stated in notes/C05.md) lives here: an INDEPENDENT float64 evaluation of the
  stated line-of-sight model gives, for every ordered pair (n, c), whether n's profile interpolated at c's
  bearing is above c's own gradient: 1 yes, 0 no, 2 borderline (|difference| < 1e-9, unless the tie is exact
- because every elevation involved is exactly at eye level, which is 0).  TLC decides which pairs matter
+ because the profile points bracketing c's bearing and c itself are exactly at eye level, which is 0).  TLC decides which pairs matter
  (nearer, spans the bearing) and hence the visibility of every cell.
 """
 import json
@@ -161,7 +161,8 @@ def bridge(H, W, terr, vr, vc, vp_elev, target, ew, ns):
             g0 = grad(en[1], en[2], en[3])
             g1 = grad(r, c, terr[r][c])
             g2 = grad(ex[1], ex[2], ex[3])
-            level = (en[3] == vp_elev and terr[r][c] == vp_elev and ex[3] == vp_elev)
+            # which of the three profile points are exactly at eye level (rational arithmetic)
+            level = (en[3] == vp_elev, terr[r][c] == vp_elev, ex[3] == vp_elev)
             prof[(r, c)] = (en[0], ex[0], g0, g1, g2, level)
     blocks = [[0] * ncell for _ in range(ncell)]
     nborder = 0
@@ -181,13 +182,18 @@ def bridge(H, W, terr, vr, vc, vp_elev, target, ew, ns):
                 cross = nx * cu - nu * cx
                 if cross < 0:
                     val = g1 + (g0 - g1) * (delta / a0)
+                    flat0 = level[0] and level[1]
                 elif cross > 0:
                     val = g1 + (g2 - g1) * (delta / a2)
+                    flat0 = level[1] and level[2]
                 else:
                     val = g1
+                    flat0 = level[1]
                 diff = val - own
-                if level and own_level:
-                    f = 0                      # exact tie: everything exactly at eye level
+                if flat0 and own_level:
+                    # exact tie: the profile points bracketing c's bearing and c itself are exactly at eye
+                    # level, so every gradient involved is exactly 0.0 and 0.0 + (0.0 - 0.0) * t == 0.0
+                    f = 0
                 elif abs(diff) < BAND:
                     f = 2
                     nborder += 1
@@ -329,13 +335,16 @@ def encode_steps(steps, H, W, vr, vc, ew, ns):
                     continue
                 if ang < a1:
                     val = g1 + (g0 - g1) * ((a1 - ang) / (a1 - a0))
+                    flat = g0 == g1
                 elif ang > a1:
                     val = g1 + (g2 - g1) * ((ang - a1) / (a2 - a1))
+                    flat = g1 == g2
                 else:
                     val = g1
+                    flat = True
                 diff = val - g
-                if g0 == g1 == g2 == g:
-                    flags[ids[x]] = 0
+                if flat and g1 == g:
+                    flags[ids[x]] = 0          # g1 + 0.0 * t == g1 == g exactly: not greater
                 elif abs(diff) < BAND:
                     flags[ids[x]] = 2
                     nborder += 1
